@@ -148,6 +148,14 @@ Definition top (s : pst) : outcome ascii :=
 Definition top_is (c : ascii) (s : pst) : outcome bool :=
   do t <- top s; Ok (Ascii.eqb t c).
 
+(* demarc_stack[0]: the OUTERMOST open demarcation (the list's head is the top) *)
+Fixpoint bottom_of (l : list ascii) : outcome ascii :=
+  match l with
+  | [] => Raise (PyCrash IndexError)
+  | [c] => Ok c
+  | _ :: r => bottom_of r
+  end.
+
 (* ---- _expand_splats ---- *)
 Definition star : ascii := "*"%char.
 
@@ -295,6 +303,11 @@ Variable sepc : ascii.
          end
        else Raise (YPE Generic)
      else
+       (* since the fix of F30: no collector inside a [...] segment *)
+       do in_segment <-
+          (if 0 <? dcount s then do b <- bottom_of (stack s); Ok (Ascii.eqb b "["%char)
+           else Ok false);
+       if in_segment then Raise (YPE Generic) else
        do s1 <- (if (clevel s =? 0) then flush_expand s else Ok s);
        let s2 := set_stype (Some TCollector)
                    (push c (set_clevel (S (clevel s1)) (set_seek_cop false s1))) in
@@ -304,6 +317,9 @@ Variable sepc : ascii.
   (fun s c => Ok ((0 <? dcount s) && Ascii.eqb c ")"%char
                   && is_stype TKeywordSearch (stype s)))
   (fun s _ =>
+     (* since the fix of F30: the keyword's ")" closes a "(" and nothing else *)
+     do t <- top s;
+     if negb (Ascii.eqb t "("%char) then Raise (YPE Generic) else
      do s1 <- pop s;
      cont (set_seek_cop false (set_ncmb (Some "]"%char) s1))).
 
@@ -408,12 +424,15 @@ Definition undemarcate (id : string) : string :=
      do s1 <- pop (set_stype None (set_sid "" (set_segs ((segs s ++ [sg])%list) s)));
      cont (set_skw None (set_sinv false (set_smeth None s1)))).
 
-(* 17 -- after the "fix:" commit: an unmatched ] raises YAMLPathException *)
+(* 17 -- after the "fix:" commits: an unmatched ] raises YAMLPathException,
+   and so does (F30) a ] whose innermost open demarcation is not a [ *)
 Definition r_stray_close_bracket := mkrule
   (fun _ c => Ok (Ascii.eqb c "]"%char))
   (fun s _ =>
      if dcount s <? 1 then Raise (YPE Generic)
-     else do s1 <- pop s; fall s1).
+     else do t <- top s;
+          if negb (Ascii.eqb t "["%char) then Raise (YPE Generic)
+          else do s1 <- pop s; fall s1).
 
 (* 18 *) Definition r_separator := mkrule
   (fun s c => Ok ((dcount s <? 1) && Ascii.eqb c sepc))
